@@ -568,6 +568,11 @@ func callSSA(i *interpreter, caller *frame, callpos token.Pos, fn *ssa.Function,
 			}
 		}
 		i.w.FuncsEntered[name]++
+		if fn.Pkg != nil && stubbedPackages[fn.Pkg.Pkg.Path()] && (fn.Name() == "init" || strings.HasPrefix(fn.Name(), "init#")) {
+			// the package is replaced by a model as a whole; what its
+			// initialiser sets up is accounted for by stubStateAccess
+			return nil
+		}
 		if stubFn, ok := i.w.stubs[name]; ok {
 			fn = stubFn
 			fr.fn = fn
